@@ -56,10 +56,10 @@ func (p *p) ows() {
 	}
 }
 
-func isDigit(c byte) bool   { return c >= '0' && c <= '9' }
-func isLC(c byte) bool      { return c >= 'a' && c <= 'z' }
-func isAlpha(c byte) bool   { return isLC(c) || (c >= 'A' && c <= 'Z') }
-func isKeyCh(c byte) bool   { return isLC(c) || isDigit(c) || c == '_' || c == '-' }
+func isDigit(c byte) bool { return c >= '0' && c <= '9' }
+func isLC(c byte) bool    { return c >= 'a' && c <= 'z' }
+func isAlpha(c byte) bool { return isLC(c) || (c >= 'A' && c <= 'Z') }
+func isKeyCh(c byte) bool { return isLC(c) || isDigit(c) || c == '_' || c == '-' }
 func isTokCh(c byte) bool {
 	return isAlpha(c) || isDigit(c) || c == '_' || c == '-' || c == '.' || c == ':' || c == '%' || c == '*' || c == '/'
 }
